@@ -718,15 +718,25 @@ fn conc_node() {
         .collect();
     let mut o = NdJson::create(&arg("out").unwrap());
     let mut runs = 0u64;
-    let build = |prefix: &Vec<Value>| -> NodeFx {
-        let fx = NodeFx::new(Network::Regtest, None);
-        for r in prefix {
-            nl::apply(&fx, r);
-        }
-        fx
-    };
     let strip = |v: &Value| json!({"ok": v["ok"], "flag": v["flag"]});
     for (ci, case) in cases.iter().enumerate() {
+        // "policy": "paylimit" = payment velocity limit of one v1 amount per hour;
+        // "tick": seconds by which the clock advances between the two requests (sequential references) /
+        // while the held thread waits at its stop point (time passes while a request is preempted)
+        let paylimit = case["policy"] == "paylimit";
+        let tick = case["tick"].as_u64().unwrap_or(0);
+        let build = |prefix: &Vec<Value>| -> NodeFx {
+            let fx = NodeFx::new(Network::Regtest, if paylimit { Some(nl::paylimit_policy(Network::Regtest)) } else { None });
+            for r in prefix {
+                nl::apply(&fx, r);
+            }
+            fx
+        };
+        let advance = |fx: &NodeFx| {
+            if tick > 0 {
+                fx.clock.set(fx.clock_now() + Duration::from_secs(tick));
+            }
+        };
         let prefix: Vec<Value> = case["prefix"].as_array().unwrap().clone();
         let reqs = [case["a"].clone(), case["b"].clone()];
         let pre = nl::project(&build(&prefix));
@@ -746,6 +756,7 @@ fn conc_node() {
         for order in [[0usize, 1usize], [1, 0]] {
             let fx = build(&prefix);
             let r1 = nl::apply(&fx, &reqs[order[0]]);
+            advance(&fx);
             let r2 = nl::apply(&fx, &reqs[order[1]]);
             let (ra, rb) = if order[0] == 0 { (r1, r2) } else { (r2, r1) };
             seqs.push(json!({"ra": strip(&ra), "rb": strip(&rb), "post": nl::project(&fx)}));
@@ -777,6 +788,7 @@ fn conc_node() {
                     std::thread::yield_now();
                 }
                 let other = 1 - held;
+                advance(&fx);
                 let h2 = spawn(other);
                 let t = Instant::now();
                 while results.lock().unwrap()[other].is_none() && t.elapsed() < Duration::from_millis(25) {
